@@ -604,9 +604,11 @@ func run(c *core.Ctx) {
 	log.SetOutput(io.Discard)
 	var cs Case
 	seenW := map[uint64]struct{}{}
-	visit := func(sub string) func(x *explore.C) bool {
+	// owned: the exploration itself hands every case to exactly one worker (ExploreSharded); otherwise every
+	// worker enumerates all cases and keeps those c.Mine() assigns to it.
+	visitWith := func(sub string, owned bool) func(x *explore.C) bool {
 		return func(x *explore.C) bool {
-			if !c.Mine() {
+			if !owned && !c.Mine() {
 				return true
 			}
 			cs := cs
@@ -641,17 +643,26 @@ func run(c *core.Ctx) {
 			return c.Evals%4096 != 0 || !c.Expired()
 		}
 	}
+	visit := func(sub string) func(x *explore.C) bool { return visitWith(sub, false) }
 	explore.Explore(-1, func(x *explore.C) { cs = genCoreStyles(x) }, visit("core-styles"))
 	explore.Explore(-1, func(x *explore.C) { cs = genCoreEvents(x) }, visit("core-events"))
 	explore.Explore(-1, func(x *explore.C) { cs = genCoreText(x) }, visit("core-text"))
 	explore.Explore(-1, func(x *explore.C) { cs = genCoreStars(x) }, visit("core-stars"))
 	explore.Explore(-1, func(x *explore.C) { cs = genCoreInfo(x) }, visit("core-info"))
+	explore.Explore(-1, func(x *explore.C) { cs = genCoreStyleValues(x) }, visit("values-style"))
+	explore.Explore(-1, func(x *explore.C) { cs = genCoreNames(x) }, visit("values-names"))
+	explore.Explore(-1, func(x *explore.C) { cs = genCoreEventValues(x) }, visit("values-event"))
+	explore.Explore(-1, func(x *explore.C) { cs = genCoreTextValues(x) }, visit("values-text"))
+	explore.Explore(-1, func(x *explore.C) { cs = genCoreInfoValues(x) }, visit("values-info"))
+	explore.Explore(-1, func(x *explore.C) { cs = genCoreSyntax(x) }, visit("core-syntax"))
+	explore.Explore(-1, func(x *explore.C) { cs = genCoreMany(x) }, visit("core-many"))
 	p := profile{thorough: thorough}
-	explore.Explore(2, func(x *explore.C) { cs = genBall(x, p) }, visit("ball"))
+	explore.ExploreSharded(2, c.Mine, func(x *explore.C) { cs = genBall(x, p) }, visitWith("ball", true))
 	if thorough {
 		// B=3 with the reduced family of column orders (adjacent transpositions, rotations, reversal)
 		p.reducedPerms = true
-		explore.Explore(3, func(x *explore.C) { cs = genBall(x, p) }, visit("ball3"))
+		// (each worker owns whole subtrees below the first deviation, so case generation is not repeated 16 times)
+		explore.ExploreSharded(3, c.Mine, func(x *explore.C) { cs = genBall(x, p) }, visitWith("ball3", true))
 	}
 	c.ExtraMax["deviation_bound"] = float64(bound)
 }
@@ -677,16 +688,17 @@ func replay(sub string, raw json.RawMessage) (string, bool) {
 func init() {
 	core.Register(&core.Prop{
 		ID: "C04", Level: "exploration",
-		Rule: "a case = (ground-truth SSA model, rendering choices) chosen by the E1 explorer. Model: script info (15 fields, comments), 0..s styles over all 23 typed attributes sharing one Format, Dialogue events with every column (start/end cs, layer or marked, margins, effect, name, style reference incl. '*' forms), text of lines x runs (override block + text, commas, colons, look-alike cells). Rendering: v4 / v4+, column order of both Format lines (every transposition, rotation and the reversal of the full column list; every permutation in the core products), column subsets, Text last, section-name case and [V4 Styles+], H: vs HH: times, 5 colour encodings (&H upper/lower/6-digit, signed/unsigned decimal), booleans -1/0, float forms, padded margins, \\N / \\n, EOL kinds, BOM, unterminated last line, blank lines, Format separators, field order, comment forms, Timer forms, junk (colon-less lines, unknown keys, Comment/Picture/Sound/Movie/Command events, unknown sections holding look-alike lines). Read: ReadFromSSA(render(model)) must denote the model (info, style table, events compared separately). Write: WriteToSSA(model) must denote the model to ReadFromSSA and to the independent Format-driven decoder (true <=> -1), and write(read(write(model))) must be byte-identical to write(model); known writer defects are matched as exact model transformations so everything else stays compared. non-trivial = non-baseline case, distinct by rendered bytes (read) or by model (write)",
+		Rule: "a case = (ground-truth SSA model, rendering choices) chosen by the E1 explorer. Model: script info (15 fields, comments), 0..s styles over all 23 typed attributes sharing one Format, Dialogue events with every column (start/end cs, layer or marked, margins, effect, name, style reference incl. '*' forms), text of lines x runs (override block + text, commas, colons, look-alike cells). Value tables (boundary-complete, every one inside a full product and in the deviation balls): style / speaker names plain, with a blank, digits only, with ':' ';' '[..]', non-ASCII, the keywords Default/Format/Style/Dialogue, '*'-prefixed; font names with a blank, '@' prefix, non-ASCII, empty; floats 0, negative, 1-3 decimals, 1000.125, the truncation-sensitive 2.675 / 1.005 / 0.07, integer-valued; Alignment 1..11, BorderStyle 1/3, Encoding 0/1/128/134/204/255, margins 0/9/10/99/100/1234/9999/negative; colours all-zero, all-ones, each single byte 0xFF, 0x7FFFFFFF, 0x80000000, 0x80000008 (= -2147483640); times at the .00/.01/.05/.10/.50/.99 fractions and the second/minute/hour/10 h/24 h/100 h boundaries; layer 0..1000000; effects with ';' fields, blanks, ':'; 11 override blocks (several tags, {=0}, blanks, commas, ':'); 30 text atoms (commas, ':', ';', brackets, tab, NBSP, \\h, non-ASCII, emoji, keywords, a Dialogue look-alike, empty, outer blanks); every script-info field with >= 2 values incl. URL / clock-time / comma / non-ASCII / keyword / section-name contents, PlayRes 0..100000, Timer 0 / 0.125 / 33.3333 / 1000.5, WrapStyle 0..3, ScriptType case variants, comments empty / with ':' / ';' / '[' / non-ASCII. Rendering: v4 / v4+, column order of both Format lines (every transposition, rotation and the reversal of the full column list; every permutation in the core products), column subsets, Text last, section-name case and [V4 Styles+], H: vs HH: times, 6 colour encodings (&H upper/lower/6-digit/no leading zeros, signed/unsigned decimal), booleans -1/0, 3 float forms (20 / 20.0 / 20.000), padded event and style margins, \\N / \\n, EOL kinds, BOM, unterminated last line, blank lines, Format separators, 0/1/2 blanks after 'Key:', trailing blank or tab on every line, field order, comment forms, Timer forms (100 / 100.0000 / 100,0000), a known field with empty content, junk (colon-less lines, unknown keys, Comment/Picture/Sound/Movie/Command events, unknown sections holding look-alike lines). Read: ReadFromSSA(render(model)) must denote the model (info, style table, events compared separately). Write: WriteToSSA(model) must denote the model to ReadFromSSA and to the independent Format-driven decoder (true <=> -1), and write(read(write(model))) must be byte-identical to write(model); known writer defects are matched as exact model transformations so everything else stays compared. non-trivial = non-baseline case, distinct by rendered bytes (read) or by model (write)",
 		Scope: map[core.Tier]string{
-			core.Quick:    "core products (styles: <=2 styles x subsets of 4 attributes x all column permutations x 5 radices x v4/v4+; events: <=2 events x <=2 lines x <=2 runs x all permutations of 5 columns x break kind x time form x EOL; info: subsets of 6 fields x comments x junk x EOL) + deviation ball B=2 over all choice points (<=2 styles, <=2 events, <=2 lines, <=3 runs)",
-			core.Thorough: "core products + deviation ball B=2 as in quick but <=3 styles, <=3 events, <=3 lines + deviation ball B=3 with the column orders reduced to adjacent transpositions, rotations and the reversal",
+			core.Quick:    "structure products (styles: <=2 styles x subsets of 4 attributes x all column permutations x 2 radices x v4/v4+; events: all permutations of 5 columns x layer/marked x style reference x time form x EOL; text shapes; star names; info: subsets of 6 fields x comments x junk x EOL) + value products (style: version x attribute x every value of its kind x every encoding of the kind x 3 column layouts x key separator; names: style name x font name x reference form x speaker; event: start x end offset x time form x column order, layer/marked/each margin x value x padding x order, effect x speaker x order x key separator; text: atom x block x 5 placements x break kind, atom x atom as two lines / around an empty line / around a block; info: field x value x key separator x trailing blanks x company x EOL, comment x comment x form x position; syntax: key separator x trailing blanks x EOL x section case x Format separator x BOM x final EOL x blank lines x empty field; many: 3..300 events / 3..257 styles / 3..257 comments / 4..50 lines / 4..50 runs, all distinct, x version x EOL) + deviation ball B=2 over all choice points (<=2 styles, <=2 events, <=2 lines, <=3 runs)",
+			core.Thorough: "all products + deviation ball B=2 as in quick but <=3 styles, <=3 events, <=3 lines + deviation ball B=3 with the column orders reduced to adjacent transpositions, rotations and the reversal",
 		},
 		Assumptions: []string{"Go toolchain and standard library", "independent reference codec engine/ref/ssa",
 			"white space at the outer ends of a text line is outside the denotation (the reader trims; the format description is silent)",
 			"an event column absent from Format denotes the zero value (0 / false / empty) of its field",
 			"all styles of a document share one attribute set (one Format line); write direction uses such style tables only, so the output does not depend on map iteration order (that is C19's subject)",
-			"style references point to defined styles or are empty; stray '{' '}' outside override blocks are not generated"},
+			"style references point to defined styles or are empty; stray '{' '}' outside override blocks and the empty block '{}' are not generated",
+			"cells carry no blanks at their ends and no comma (except Text); style names are non-empty and unique; key and column names are spelled as in the format description (plus StrikeOut); hexadecimal colours are &H + digits without a trailing '&'; time fractions have two digits"},
 		Plain: run, Replay: replay,
 	})
 }
